@@ -10,6 +10,7 @@ about and demand that every 64-bit cursor update `p ↦ p + d` satisfies `p.toNa
 and that every offset stored in an ELF32 header field fits 32 bits (`fitsB`).
 -/
 import ElfioVerif.Model.Writer
+import ElfioVerif.Lemmas.WriterSites
 import ElfioVerif.Lemmas.RelocSwap
 namespace ElfioVerif
 open Gen
@@ -119,7 +120,7 @@ theorem layoutLoose_eq_spec (c : Cls) (segs : List Seg) (l : List SecBuf) (i : N
   | cons s rest ih =>
     unfold layoutLoose looseSpec
     split
-    · simp only [ih, List.reverse_cons, List.append_assoc, List.singleton_append]
+    · simp only [lsws_advance_eq, ih, List.reverse_cons, List.append_assoc, List.singleton_append]
     · simp only [ih, List.reverse_cons, List.append_assoc, List.singleton_append]
 
 /-- no wrap-around (and ELF32 fit) along `layout_sections_without_segments` -/
@@ -807,7 +808,7 @@ theorem layoutSegment_eq (c : Cls) (hdrPhoff : BitVec 64) (phentsize phnum : Bit
       | none => pure none
       | some st => pure (some (st.lay, segFinish c g r.2.1 st))) := by
   unfold layoutSegment segFirstGen segInit segFinish
-  simp only
+  simp only [lseg_has_members0_count, lseg_has_members_count, lseg_fresh_count, decide_eq_true_eq]
   cases g.secs.head? with
   | none =>
     simp only [pure, Except.pure, bind, Except.bind]
@@ -2345,7 +2346,7 @@ theorem placed_all (o : Obj) (h : Bytes) (res : LayoutRes) (hl : layoutOf o h = 
   | true => exact Or.inr rfl
   | false =>
     left
-    simp only [withoutSegment, Bool.not_eq_false', List.any_eq_true, beq_iff_eq] at hw
+    simp only [withoutSegment_eq, Bool.not_eq_false', List.any_eq_true, beq_iff_eq] at hw
     obtain ⟨g', hg', idx, hidx, rfl⟩ := hw
     obtain ⟨t, ht, hsecs⟩ := final_seg_turn o h res hl hnw hn h0 g' hg'
     obtain ⟨-, -, e3⟩ := layoutOf_trace o h res hl hnw hn h0
@@ -2822,7 +2823,7 @@ def layoutDomB (cov ins : Bool) (sel : Nat → Bool) (o : Obj) (h : Bytes) : Boo
 
 theorem withoutSegment_false_of_mem (segs : List Seg) (g : Seg) (hg : g ∈ segs) (idx : BitVec 16)
     (hi : idx ∈ g.secs) : withoutSegment segs idx.toNat = false := by
-  simp only [withoutSegment, Bool.not_eq_false', List.any_eq_true, beq_iff_eq]
+  simp only [withoutSegment_eq, Bool.not_eq_false', List.any_eq_true, beq_iff_eq]
   exact ⟨g, hg, idx, hi, rfl⟩
 
 /-- the section a turn left at position `k` is the final one, if `k` was generated by then and is a
